@@ -13,6 +13,7 @@ import (
 
 	"github.com/scrapli/scrapligo/driver/generic"
 	"github.com/scrapli/scrapligo/driver/options"
+	"github.com/scrapli/scrapligo/transport"
 	"github.com/scrapli/scrapligo/util"
 
 	"verifharness/simdev"
@@ -145,14 +146,29 @@ func c14Run(s *c14Scn) verdict {
 			}
 
 			return []byte(c)
+		case "corrupt":
+			// another key for the host, and a line that breaks off in the middle: the file as a whole cannot be loaded
+			l := khLine(host, srv.HostKey.PublicKey())
+
+			return []byte(khLine(host, other.PublicKey()) + l[:len(l)/2] + "\n")
 		}
 
 		return []byte("# nothing here\n")
 	}
 
-	if s.KH == "has" || s.KH == "other" || s.KH == "empty" {
+	if s.KH == "has" || s.KH == "other" || s.KH == "empty" || s.KH == "corrupt" {
 		khPath = filepath.Join(dir, "known_hosts")
 		_ = os.WriteFile(khPath, khContent(s.KH), 0o600)
+	}
+
+	if s.KH == "missing" {
+		// the option itself must refuse a path that does not exist: no driver, no connection
+		_, nerr := generic.NewDriver(host, append(append([]util.Option{}, opts...), options.WithSSHKnownHostsFile(filepath.Join(dir, "no-such-known-hosts")))...)
+		if nerr == nil {
+			fail(&v, "C14:"+s.Transport+":missing-known-hosts-file-accepted", "%s: a known-hosts path that does not exist was accepted by the constructor", cell)
+		}
+
+		return v
 	}
 
 	if khPath != "" {
@@ -434,6 +450,93 @@ func c14(_ []string) error {
 	}
 
 	parallel(len(scns), 8, func(i int) { emit(c14Run(scns[i])) })
+
+	return nil
+}
+
+// c14home: the two "system default" SSH file options resolve through the home directory; run in a process of its own with HOME
+// pointing at a scratch directory. Each option must set exactly the setting it names (known-hosts file / config file) to an
+// existing file of that kind and leave the other one alone.
+func init() { register("c14home", c14home) }
+
+func c14home(_ []string) error {
+	base, err := os.MkdirTemp(os.Getenv("VERIF_TMP"), "c14home-")
+	if err != nil {
+		return err
+	}
+
+	defer os.RemoveAll(base)
+
+	id := 0
+
+	for _, layout := range []string{"dot-ssh", "etc-ssh"} {
+		home := filepath.Join(base, layout)
+
+		var kh, cfg string
+
+		if layout == "dot-ssh" {
+			kh, cfg = filepath.Join(home, ".ssh", "known_hosts"), filepath.Join(home, ".ssh", "config")
+		} else {
+			kh, cfg = filepath.Join(home, "etc", "ssh", "ssh_known_hosts"), filepath.Join(home, "etc", "ssh", "ssh_config")
+		}
+
+		_ = os.MkdirAll(filepath.Dir(kh), 0o700)
+		_ = os.WriteFile(kh, []byte("# known hosts\n"), 0o600)
+		_ = os.WriteFile(cfg, []byte("# config\n"), 0o600)
+		_ = os.Setenv("HOME", home)
+
+		for _, which := range []string{"known-hosts", "config"} {
+			for _, tt := range []string{"system", "standard"} {
+				id++
+				v := verdict{ID: id, Variant: layout + "/" + which + "/" + tt, OK: true, Nontrivial: true}
+				opt := options.WithSSHKnownHostsFileSystem()
+
+				if which == "config" {
+					opt = options.WithSSHConfigFileSystem()
+				}
+
+				d, derr := generic.NewDriver("127.0.0.1", options.WithTransportType(tt), opt)
+				if derr != nil {
+					fail(&v, "C14:"+tt+":system-default-file:"+which+":refused", "%s: %v", v.Variant, derr)
+					emit(v)
+
+					continue
+				}
+
+				var a *transport.SSHArgs
+
+				switch impl := d.Transport.Impl.(type) {
+				case *transport.System:
+					a = impl.SSHArgs
+				case *transport.Standard:
+					a = impl.SSHArgs
+				}
+
+				if a == nil {
+					v.Skipped = "transport does not expose its ssh arguments"
+					emit(v)
+
+					continue
+				}
+
+				set, otherField, wantBase := a.KnownHostsFile, a.ConfigFile, "known_hosts"
+				if which == "config" {
+					set, otherField, wantBase = a.ConfigFile, a.KnownHostsFile, "config"
+				}
+
+				_, serr := os.Stat(set)
+
+				switch {
+				case set == "" || serr != nil || !strings.HasSuffix(filepath.Base(set), wantBase):
+					fail(&v, "C14:"+tt+":system-default-file:"+which+":not-set", "%s: the %s file setting is %q (known-hosts %q, config %q)", v.Variant, which, set, a.KnownHostsFile, a.ConfigFile)
+				case otherField != "":
+					fail(&v, "C14:"+tt+":system-default-file:"+which+":foreign-setting-changed", "%s: the option for the %s file also set the other file to %q", v.Variant, which, otherField)
+				}
+
+				emit(v)
+			}
+		}
+	}
 
 	return nil
 }
